@@ -97,6 +97,10 @@ def bounded(tier, seed):
              'ver:"3.0"\na\n2019-07-15T12:00:00-09:00\n', 'ver:"3.0"\na\n2019-01-15T12:00:00-09:00\n',
              'ver:"3.0"\na\n2019-01-15T12:00:00+11:00\n', 'ver:"3.0"\na\n2019-07-15T12:00:00+11:00\n',
              'ver:"3.0"\na\n2019-07-15T12:00:00-08:00\n', 'ver:"3.0"\na\n2019-01-15T12:00:00-08:00\n', 'ver:"2.0.0"\na\n1\n', 'ver:"3.0.1"\na\n[1]\n', 'ver:"2.5"\na\n1\n', 'ver:"2.5"\na\n[1]\n']
+    # non-official version strings with every ver-2.0 kind (a parsed grid keeps the version it declared)
+    body = 'a,b,c,d,e,f,g\nR,M,N,T,1.5kW,"s",`u`\n@r "d",2020-01-01,12:00:00,C(1.0,2.0),2020-01-01T00:00:00+00:00 UTC,-INF,Bin(text/plain)\n'
+    for ver in ('3.1', '3.0.0', '2.0.0', '3', '2.0a', '4.0', '2.5'):
+        extra.append('ver:"%s"\n%s' % (ver, body.replace('Bin(text/plain)', 'N') if ver[0] != '2' else body))
     for t in extra:
         cases += 1
         for kind, what in check_text(t, hszinc.MODE_ZINC, 'extra'):
